@@ -522,12 +522,15 @@ def check_names(workdir, model, config, header_path):
 CFLAGS = ["-std=c99", "-O0", "-w", "-Werror=implicit-function-declaration", "-Werror=incompatible-pointer-types", "-Werror=int-conversion"]
 
 
-def run_driver(workdir, model, config, plan, header_path, tag=""):
+SANITIZE = ["-g", "-fsanitize=address,undefined", "-fno-sanitize-recover=all"]
+
+
+def run_driver(workdir, model, config, plan, header_path, tag="", sanitize=False):
     src = os.path.join(workdir, "driver%s.c" % tag)
     exe = os.path.join(workdir, "driver%s" % tag)
     with open(src, "w") as f:
         f.write(gen_driver(model, config, plan, header_path))
-    cc = subprocess.run(["cc"] + CFLAGS + ["-o", exe, src], stdout=subprocess.PIPE, stderr=subprocess.STDOUT, text=True)
+    cc = subprocess.run(["cc"] + CFLAGS + (SANITIZE if sanitize else []) + ["-o", exe, src], stdout=subprocess.PIPE, stderr=subprocess.STDOUT, text=True)
     if cc.returncode != 0:
         errs = [l for l in cc.stdout.splitlines() if "error" in l]
         missing = [l for l in errs if "implicit declaration" in l]
@@ -535,14 +538,16 @@ def run_driver(workdir, model, config, plan, header_path, tag=""):
             return {"violation": {"class": "wrap.no_wrapper", "site": missing[0].split("function")[-1].strip(" ‘’'`;[]-Werror=implicit-function-declaration"), "msg": "the processed header offers no wrapper of the documented name: " + missing[0][-200:]}}
         return {"violation": {"class": "wrap.compile", "site": "cc", "msg": "a program using the wrappers as documented does not compile: " + " | ".join(e[-200:] for e in errs[:3])}}
     try:
-        p = subprocess.run([exe], stdout=subprocess.PIPE, stderr=subprocess.PIPE, text=True, timeout=20, errors="replace")
+        p = subprocess.run([exe], stdout=subprocess.PIPE, stderr=subprocess.PIPE, text=True, timeout=60, errors="replace",
+                           env=dict(os.environ, ASAN_OPTIONS="detect_leaks=0:abort_on_error=0", UBSAN_OPTIONS="print_stacktrace=0"))
     except subprocess.TimeoutExpired:
         return {"violation": {"class": "wrap.hang", "site": "driver", "msg": "the C program did not finish"}}
     got = p.stdout.splitlines()
     exp = expected_log(model, config, plan)
     v = classify(exp, got)
     if v is None and p.returncode != 0:
-        v = {"class": "wrap.crash", "site": "driver", "msg": "the C program died with status %d" % p.returncode}
+        san = [l for l in p.stderr.splitlines() if "ERROR: AddressSanitizer" in l or "runtime error" in l]
+        v = {"class": "wrap.crash", "site": "driver", "msg": "the C program died with status %d%s" % (p.returncode, (": " + san[0][:200]) if san else "")}
     elif v is not None and p.returncode < 0:
         v["msg"] += " (the program then died with signal %d)" % -p.returncode
-    return {"violation": v, "log_lines": len(got), "slots": sum(1 for l in got if l.startswith("SLOT"))}
+    return {"violation": v, "log_lines": len(got), "slots": sum(1 for l in got if l.startswith("SLOT")), "log": p.stdout}
